@@ -24,8 +24,9 @@ EXHAUSTIVE = {'quick': 'every module of all 44 symbol sizes through matrix_iter(
 TIMEOUT = {'quick': 3600, 'thorough': 21600}
 
 POOL = ['red', 'blue', 'gold', 'navy', 'teal', 'orchid', '#abc', '#123456', '#fe12dc', (1, 2, 3), (200, 100, 50), (9, 8, 7),
-        'green', 'purple', 'orange', 'crimson', 'khaki', '#0f0', '#00f', 'black', 'white', 'silver', 'maroon', 'tan']
-POOL_A = ['#12345680', (10, 20, 30, 128), '#abcd', '#00000010']
+        'green', 'purple', 'orange', 'crimson', 'khaki', '#0f0', '#00f', 'black', 'white', 'silver', 'maroon', 'tan',
+        'aliceblue', '#faebd7', (240, 248, 255), 'aquamarine']
+POOL_A = ['#12345680', (10, 20, 30, 128), '#abcd', '#00000010', '#ff000000', (9, 9, 9, 0), (1, 2, 3, 0.0), (4, 5, 6, 0.5)]
 
 
 def gen_cases(tier, seed):
